@@ -173,7 +173,7 @@ func (m *vRawMsg) typePath(p vIEPath) string {
 // ---------------------------------------------------------------------------
 // mutation operators
 
-var vIEMutOps = []string{"drop", "dup", "empty", "retype", "trunc", "overlong", "shortlen", "unknown", "v6only", "flags", "cutflow", "random", "bitflip", "zero", "ones", "ungroup", "movetop", "swap"}
+var vIEMutOps = []string{"drop", "dup", "empty", "retype", "trunc", "overlong", "shortlen", "unknown", "v6only", "flags", "cutflow", "random", "bitflip", "zero", "ones", "ungroup", "movetop", "swap", "nonutf8"}
 
 var vRetypeTargets = []uint16{19, 60, 57, 21, 56, 93, 20, 22, 24, 26, 95, 108, 109, 44, 84, 29, 42, 49, 96, 2, 1, 3, 7, 9, 10, 14, 15, 16, 18, 58, 59, 83, 39, 85, 124}
 
@@ -319,6 +319,28 @@ func vMutateIE(m *vRawMsg, p vIEPath, op string, rng *rand.Rand) bool {
 			}
 		}
 		vSetFlowDesc(x, s)
+	case "nonutf8":
+		// text-carrying IEs (Node ID as FQDN, Application ID, Network Instance, flow descriptions): bytes that are not UTF-8
+		if x.Grouped {
+			return false
+		}
+		bad := []byte{0xff, 0xfe, 0xc0, 0x80, 0xc3, 0x28, 0xed, 0xa0, 0x80}
+		n := 1 + rng.Intn(8)
+		txt := make([]byte, n)
+		for k := range txt {
+			txt[k] = bad[rng.Intn(len(bad))]
+		}
+		switch x.Type {
+		case 60: // Node ID: type FQDN, one label
+			x.Payload = append([]byte{2, byte(n)}, txt...)
+		case 23, 58 + 3: // SDF filter / PFD contents: keep the structure, replace the flow description
+			if _, _, ok := vFlowDescSpan(x); !ok {
+				return false
+			}
+			vSetFlowDesc(x, string(txt))
+		default:
+			x.Payload = txt
+		}
 	case "random":
 		if x.Grouped {
 			x.Grouped, x.Kids = false, nil
